@@ -183,6 +183,48 @@ fn raw_mono_ns() -> i128 {
 
 type Arrivals = std::sync::Arc<std::sync::Mutex<Vec<i128>>>;
 
+// How well the machine kept time while a scenario ran (per scenario process). The scenarios run in real time: on a
+// machine that is so loaded that a thread sleeping 10 ms wakes up a quarter of a second late, or that the stand-in
+// chronyd's reply leaves long after it was due, a daemon that never synchronises proves nothing about the daemon.
+static MAX_LAG_MS: std::sync::atomic::AtomicU64 = std::sync::atomic::AtomicU64::new(0);
+static MAX_REPLY_LATE_MS: std::sync::atomic::AtomicU64 = std::sync::atomic::AtomicU64::new(0);
+
+fn start_heartbeat() {
+    MAX_LAG_MS.store(0, std::sync::atomic::Ordering::SeqCst);
+    MAX_REPLY_LATE_MS.store(0, std::sync::atomic::Ordering::SeqCst);
+    std::thread::spawn(|| loop {
+        let t = raw_mono_ns();
+        crate::common::vclock::real_sleep(std::time::Duration::from_millis(10));
+        let lag = ((raw_mono_ns() - t) / 1_000_000 - 10).max(0) as u64;
+        MAX_LAG_MS.fetch_max(lag, std::sync::atomic::Ordering::SeqCst);
+    });
+}
+
+fn health() -> Value {
+    json!({"max_scheduling_lag_ms": MAX_LAG_MS.load(std::sync::atomic::Ordering::SeqCst), "max_reply_lateness_ms": MAX_REPLY_LATE_MS.load(std::sync::atomic::Ordering::SeqCst)})
+}
+
+/// The scenario ran on a machine that did not keep time (see above): what it observed decides nothing.
+pub fn too_slow(v: &Value) -> bool {
+    v["machine"]["max_scheduling_lag_ms"].as_u64().unwrap_or(0) > 200 || v["machine"]["max_reply_lateness_ms"].as_u64().unwrap_or(0) > 300
+}
+
+pub fn slow_note(v: &Value) -> String {
+    format!("inconclusive: the machine did not keep time while the scenario ran (a 10 ms sleep overslept by up to {} ms, a reply of the stand-in chronyd left up to {} ms late), three attempts", v["machine"]["max_scheduling_lag_ms"], v["machine"]["max_reply_lateness_ms"])
+}
+
+/// Up to three attempts while the machine is too slow.
+fn attempts(mut f: impl FnMut() -> Result<Value, String>) -> Result<Value, String> {
+    let mut last = f()?;
+    for _ in 0..2 {
+        if !too_slow(&last) {
+            break;
+        }
+        last = f()?;
+    }
+    Ok(last)
+}
+
 fn bring_loopback_up() -> Result<(), String> {
     // SAFETY: ioctl on a throw-away datagram socket with a zeroed ifreq naming "lo"
     unsafe {
@@ -258,9 +300,11 @@ fn fake_chronyd(sc: &Scenario, arrivals: Arrivals, poison: Poison) -> Result<(),
                 let reply = make(k, seq);
                 k += 1;
                 let s2 = sock.try_clone().expect("clone");
+                let arrived = raw_mono_ns();
                 std::thread::spawn(move || {
                     crate::common::vclock::real_sleep(std::time::Duration::from_millis(d));
                     let _ = s2.send_to(&reply, addr);
+                    MAX_REPLY_LATE_MS.fetch_max((((raw_mono_ns() - arrived) / 1_000_000) as u64).saturating_sub(d), std::sync::atomic::Ordering::SeqCst);
                 });
             }
         });
@@ -286,6 +330,7 @@ fn fake_chronyd(sc: &Scenario, arrivals: Arrivals, poison: Poison) -> Result<(),
             k += 1;
             let path = addr.as_pathname().map(|p| p.to_path_buf());
             let s2 = sock.try_clone().expect("clone");
+            let arrived = raw_mono_ns();
             std::thread::spawn(move || {
                 if d > 0 {
                     crate::common::vclock::real_sleep(std::time::Duration::from_millis(d));
@@ -293,6 +338,7 @@ fn fake_chronyd(sc: &Scenario, arrivals: Arrivals, poison: Poison) -> Result<(),
                 if let Some(p) = path {
                     let _ = s2.send_to(&reply, p);
                 }
+                MAX_REPLY_LATE_MS.fetch_max((((raw_mono_ns() - arrived) / 1_000_000) as u64).saturating_sub(d), std::sync::atomic::Ordering::SeqCst);
             });
         }
     });
@@ -301,6 +347,10 @@ fn fake_chronyd(sc: &Scenario, arrivals: Arrivals, poison: Poison) -> Result<(),
 
 /// Run one scenario; the result describes what an outside observer saw.
 pub fn run_scenario(bin: &str, sc: &Scenario) -> Result<Value, String> {
+    attempts(|| run_scenario_once(bin, sc))
+}
+
+fn run_scenario_once(bin: &str, sc: &Scenario) -> Result<Value, String> {
     let limit_s = 4 * sc.observe_ms / 1000 + 25;
     let bin = bin.to_string();
     let sc2 = sc.clone();
@@ -311,6 +361,7 @@ pub fn run_scenario(bin: &str, sc: &Scenario) -> Result<Value, String> {
         }
         // SAFETY: process-wide, the daemon inherits it (what a service manager gives a service)
         unsafe { libc::umask(0o022) };
+        start_heartbeat();
         for n in &sc.virtual_ifaces {
             if let Err(e) = add_virtual_iface(n) {
                 return json!({"unavailable": e});
@@ -406,7 +457,7 @@ pub fn run_scenario(bin: &str, sc: &Scenario) -> Result<Value, String> {
         let _ = child.kill();
         let _ = child.wait();
         let arr: Vec<String> = arrivals.lock().unwrap().iter().map(|a| a.to_string()).collect();
-        json!({"publications": pubs, "chronyd_request_arrivals_mono_ns": arr, "daemon_exit_status": exit, "daemon_exited_after_ms": exit_after_ms, "segment_mode_octal": file_mode.map(|m| format!("{m:o}")), "directory_mode_octal": dir_mode.map(|m| format!("{m:o}")),
+        json!({"machine": health(), "publications": pubs, "chronyd_request_arrivals_mono_ns": arr, "daemon_exit_status": exit, "daemon_exited_after_ms": exit_after_ms, "segment_mode_octal": file_mode.map(|m| format!("{m:o}")), "directory_mode_octal": dir_mode.map(|m| format!("{m:o}")),
             "file_mode": file_mode, "dir_mode": dir_mode, "opened_by_uid_65534": other_user})
     })
 }
@@ -434,8 +485,13 @@ fn read_pub(shm: &str) -> Option<(u16, i128, u32, u64)> {
 /// CBV_SHIM_EARLY_S): to the daemon, its start-up was that long ago when the worker dies - nothing in the
 /// statement limits how long a daemon has been up.
 pub fn run_worker_death(bin: &str, shim: &str, uptime_s: u64, restart: bool, one_shot: bool) -> Result<Value, String> {
+    attempts(|| run_worker_death_once(bin, shim, uptime_s, restart, one_shot))
+}
+
+fn run_worker_death_once(bin: &str, shim: &str, uptime_s: u64, restart: bool, one_shot: bool) -> Result<Value, String> {
     let (bin, shim) = (bin.to_string(), shim.to_string());
     run_with_timeout(120, move || {
+        start_heartbeat();
         use std::os::unix::fs::MetadataExt;
         if let Err(e) = enter_namespace() {
             return json!({"unavailable": e});
@@ -489,7 +545,7 @@ pub fn run_worker_death(bin: &str, shim: &str, uptime_s: u64, restart: bool, one
         let Some(first) = first else {
             let _ = child.kill();
             let _ = child.wait();
-            return json!({"first_lifetime_never_synchronized": true});
+            return json!({"first_lifetime_never_synchronized": true, "machine": health()});
         };
         let c = std::ffi::CString::new(shm).unwrap();
         let mut attached = clock_bound_shm::ShmReader::new(&c).ok();
@@ -520,7 +576,7 @@ pub fn run_worker_death(bin: &str, shim: &str, uptime_s: u64, restart: bool, one
         }
         let left = read_pub(shm);
         let left_len = std::fs::metadata(shm).ok().map(|m| m.len());
-        let mut out = json!({"first_synchronized_publication": {"generation": first.0, "inode": first.3}, "attached_client_first_record": attached_first.as_ref().map(|r| r.json()),
+        let mut out = json!({"machine": health(), "first_synchronized_publication": {"generation": first.0, "inode": first.3}, "attached_client_first_record": attached_first.as_ref().map(|r| r.json()),
             "daemon_clock_shift_s": uptime_s, "daemon_exit_status": exit, "daemon_exited_ms_after_the_attribute_broke": exited_after, "tracking_requests_after_the_attribute_broke": requests_after_break,
             "left_behind": {"exists": left_len.is_some(), "length": left_len, "generation": left.map(|l| l.0), "inode": left.map(|l| l.3), "status": left.map(|l| l.2)}});
         if restart {
@@ -564,6 +620,7 @@ pub fn run_worker_death(bin: &str, shim: &str, uptime_s: u64, restart: bool, one
             }
             let _ = second.kill();
             let _ = second.wait();
+            out["machine"] = health();
             out["second_lifetime"] = json!({"generations_seen_in_the_file": gens_seen, "published_synchronized": fresh.is_some(), "generation": fresh.map(|f| f.0), "as_of_ns": fresh.map(|f| f.1.to_string()), "inode": fresh.map(|f| f.3),
                 "inode_of_path_now": std::fs::metadata(shm).ok().map(|m| m.ino()), "attached_client_sees": seen,
                 "attached_client_caught_up": match (fresh, &seen) { (Some(f), Some(s)) => s["as_of_ns"].as_str().and_then(|a| a.parse::<i128>().ok()).map(|a| a >= f.1).unwrap_or(false), _ => false }});
@@ -578,8 +635,13 @@ pub fn run_worker_death(bin: &str, shim: &str, uptime_s: u64, restart: bool, one
 /// the in-process explorations cannot see that difference. The client must come back (with a record or an error)
 /// within `limit_ms` of real time.
 pub fn run_stalled_daemon(bin: &str, shim: &str, stall: &str, preexisting: Option<Vec<u8>>, limit_ms: u64) -> Result<Value, String> {
+    attempts(|| run_stalled_daemon_once(bin, shim, stall, preexisting.clone(), limit_ms))
+}
+
+fn run_stalled_daemon_once(bin: &str, shim: &str, stall: &str, preexisting: Option<Vec<u8>>, limit_ms: u64) -> Result<Value, String> {
     let (bin, shim, stall) = (bin.to_string(), shim.to_string(), stall.to_string());
     run_with_timeout(60, move || {
+        start_heartbeat();
         if let Err(e) = enter_namespace() {
             return json!({"unavailable": e});
         }
@@ -632,6 +694,6 @@ pub fn run_stalled_daemon(bin: &str, shim: &str, stall: &str, preexisting: Optio
         let got = rx.recv_timeout(std::time::Duration::from_millis(limit_ms)).ok();
         let _ = child.kill();
         let _ = child.wait();
-        json!({"stall_point_reached": true, "segment_file_length_at_the_stall": file_len, "client_returned": got.is_some(), "client_outcome": got.as_ref().map(|g| g.0.clone()), "client_took_ms": got.as_ref().map(|g| g.1), "limit_ms": limit_ms})
+        json!({"machine": health(), "stall_point_reached": true, "segment_file_length_at_the_stall": file_len, "client_returned": got.is_some(), "client_outcome": got.as_ref().map(|g| g.0.clone()), "client_took_ms": got.as_ref().map(|g| g.1), "limit_ms": limit_ms})
     })
 }
